@@ -61,7 +61,9 @@ fn forward_case(net: &Net, seed: u64, case: &Kv, rep: &mut Report) -> bool {
     let shapes = ref_shapes(net).unwrap();
     let key = net.name();
     let params = structural_params(net, &shapes, seed, &key);
-    let unit = if net.skipacc == Acc::Mean { 2.0 } else { 1.0 };
+    // every third case uses tiny inputs (2^-20): nothing may depend on the magnitude
+    let tiny = crate::util::fnv(&key) % 3 == 0;
+    let unit = if net.skipacc == Acc::Mean { 2.0 } else { 1.0 } * if tiny { 9.536_743e-7 } else { 1.0 };
     let x = structural_input(net.input.count(), unit, seed, &key);
     let conn = net.connects.iter().map(|(a, b)| if a == b { "a==b" } else { "a<b" }).collect::<Vec<_>>().join(",");
     match predict_vs_ref(net, &params, &x, 2e-6) {
